@@ -100,7 +100,7 @@ def main():
                        "reason": "history-simulation check (engine B) not built yet"})
     manifest = {
         "version": 1,
-        "setup_cmd": "./check selftest --n 1400",
+        "setup_cmd": "./check selftest --n 1900",
         "hooks": {
             "guard": "ASYNCIOJOBS_VERIF",
             "enable": "no hook is needed: the checks import /repo's working tree by path (VERIF_REPO, default /repo) and own every seam from the outside (event loop, time.time/time.monotonic, task factory, seeded __hash__ on workload classes); the guard variable is named for the interface only and guards nothing",
